@@ -57,12 +57,12 @@ def cases(tier, seed):
             o.append("--clean")
         return o
 
-    for rep in range(1 if tier == "quick" else 10):
+    for rep in range(1 if tier == "quick" else 30):
         for spec in workload.lattice_cases(seed * 43 + rep, opts_fn=opts, p={"damage_prob": 0.5, "dense_prob": 1.0}):
             spec["kind"] = "run"
             spec["p"]["dense_prob"] = 1.0
             out.append(spec)
-    n = 150 if tier == "quick" else 6000
+    n = 150 if tier == "quick" else 18000
     for spec in workload.standard_cases(tier, seed, n, n, opts_fn=opts, frag_share=0.35,
                                         p={"variant_prob": 0.1, "na_prob": 0.1, "waters": [0, 2, 5], "damage_prob": 0.4,
                                            "dense_prob": 0.9, "pool": None, "crowd_prob": 0.35}):
@@ -70,7 +70,7 @@ def cases(tier, seed):
         out.append(spec)
     # debump stress: long side chains hemmed in by many obstacle waters => multi-round debumping where some rounds
     # improve and later ones do not
-    nstress = 48 if tier == "quick" else 2500
+    nstress = 48 if tier == "quick" else 6000
     rng = random.Random(seed * 77 + 5)
     for i in range(nstress):
         ff = common.FFS[i % 6]
@@ -79,7 +79,7 @@ def cases(tier, seed):
                           "hydrogens": ["none", "none", "some"], "variant_prob": 0.05,
                           "pool": ["ARG", "LYS", "GLU", "GLN", "MET", "ILE", "LEU", "TRP", "PHE", "TYR", "HIS", "ASN",
                                    "ASP", "THR", "VAL", "SER"]}})
-    nd = 16 if tier == "quick" else 600
+    nd = 16 if tier == "quick" else 2000
     out += [{"kind": "direct", "seed": seed * 1000 + i} for i in range(nd)]
     return out
 
